@@ -13,7 +13,7 @@ RULE = ("Hypothesis-generated synthetic rulesets; EVERY pre-terminal of the mode
         "create_guesses with process stdout captured; lines are compared as a Counter with the model-side expansion, the "
         "returned count with the number of lines, and the loaded groups with the model's groups (value -> probability). "
         "Markov pre-terminals are compared with an independent OMEN enumerator, including rulesets whose levels have tied "
-        "probabilities. Non-trivial = product of group sizes >= 2 and an alpha word not at position 0, or adjacent alpha "
+        "probabilities, and also right after an expansion of a Markov pre-terminal on the same grammar object that a limit cut short. Non-trivial = product of group sizes >= 2 and an alpha word not at position 0, or adjacent alpha "
         "words, or a Markov level with >= 2 strings; distinct = hash of (model, pre-terminal).")
 ASSUMPTIONS = ["values within one variable are unique (as the trainer guarantees)",
                "a 'U' in a mask means str.upper() of that one character (which may be longer than one character, e.g. ß -> SS)"]
@@ -111,8 +111,23 @@ def prop(case, rec):
             if want is None:
                 rec.skip('omen_level_too_large')
                 continue
-            lines, cnt = guard(case, guesser.capture_guesses, g, [('M', i)])
             cls = ['markov_pt']
+            hist = case.get('markov_history')
+            if hist:
+                # an earlier expansion on the same grammar object that was cut short by a limit (what --limit does) must not
+                # change what this pre-terminal expands to
+                j = (i + hist[0]) % len(loaded)
+                wj = Counter()
+                for v in loaded[j]['values']:
+                    wj.update(omen_ref.enumerate_level(om, int(v), cap=20000) or [])
+                if sum(wj.values()) >= 2 and sum(wj.values()) < 20000:
+                    k = 1 + hist[1] % (sum(wj.values()) - 1)
+                    pre, pcnt = guard(case, guesser.capture_guesses, g, [('M', j)], limit=k)
+                    if len(pre) != k or pcnt != k or Counter(pre) - wj:
+                        raise Violation('markov_limited_expansion', f"Markov pre-terminal #{j} with limit {k}: wrote {len(pre)} lines, reported {pcnt}; "
+                                        f"not in the level: {list((Counter(pre) - wj).items())[:5]}", case)
+                    cls.append('markov_after_limited_expansion')
+            lines, cnt = guard(case, guesser.capture_guesses, g, [('M', i)])
             if len(grp['values']) > 1 or len(set(lv_model.values())) < len(lv_model):
                 cls.append('markov_tied_levels')
             rec.case({'pt': [['M', i]], 'levels': grp['values'], 'n': sum(want.values())}, sum(want.values()) >= 2, cls,
@@ -129,7 +144,8 @@ def cases(draw, max_pt):
     mk = draw(st.sampled_from(['no', 'no', 'yes', 'tied']))
     m = draw(S.rulesets(max_pt=max_pt, markov='no' if mk == 'no' else 'yes', tied_levels=(mk == 'tied'),
                         families=['dyadic', 'tenths', 'count', 'float']))
-    return {'model': m, 'skip_case': draw(st.integers(0, 4)) == 0}
+    hist = [draw(st.integers(0, 2)), draw(st.integers(0, 50))] if mk != 'no' and draw(st.booleans()) else None
+    return {'model': m, 'skip_case': draw(st.integers(0, 4)) == 0, 'markov_history': hist}
 
 
 def run_main(rec, seed, shard, nshards, tier):
